@@ -1,17 +1,466 @@
 /-
-  Avt.Spec.C03 — oracle of property C03 (decidable predicates evaluated on implementation states;
-  the same definitions the theorems in Avt/Props/C03.lean are stated with).
+  Avt.Spec.C03 — reference parser of property C03 and its oracle.
+
+  Everything in this file is hand-written from Paul Williams' DEC-compatible parser diagram
+  (https://www.vt100.net/emu/dec_ansi_parser) and from the list of control functions the property
+  names; nothing here looks at the generated tables `Avt.Gen.*`, except `kindAndNext` at the end,
+  which is the *classification of the generated arm list* that theorem `C03_table` compares with the
+  reference.
+
+  * `williams st c`      — the state diagram: action kind and next state for every state and every
+                           code point (`c : Nat`, in particular every Unicode scalar value);
+  * `refExecute`, `refDispatchEsc`, `refDispatchCsi` — the implemented control functions;
+  * `AState`, `refStep`, `refRun` — the reference parser: Williams' machine over *abstract*
+                           registers (the intermediate and the parameters as written, a
+                           `List (List Nat)`), with no arrays, cursors or high-water marks;
+  * `abs p`              — what a register file `p : Parser` encodes (`written p` = the parameters
+                           up to `cur_param`, each up to its `cur_part`);
+  * `checkParserStep`, `checkStep` — the oracle: the implementation's next state, emitted function and
+                           encoded registers equal `refStep`'s.
+
+  Deviations from the diagram (each one is listed by the property or forced by the pinned code):
+   D1  `:` (0x3A) in state CsiParam is a parameter character (sub-parameter separator); the diagram
+       sends it to CsiIgnore.  In CsiEntry `:` goes to CsiIgnore as in the diagram, and in the DCS
+       states `:` is handled as in the diagram (DcsIgnore).
+   D2  BEL (0x07) in OscString ends the string (xterm); the diagram ignores it there.
+   D3  C1 controls are the code points U+0080–U+009F ("anywhere" transitions, as in the diagram's
+       8-bit reading).
+   D4  every code point ≥ U+00A0 is classified like 0x41 `A` (the diagram's GR area 0xA0–0xFF is folded
+       onto 0x20–0x7F instead).  The *classification* only: the dispatch functions receive the
+       character itself, so `CSI é` selects no function and `ESC ( é` designates ASCII.
+   D5  the diagram's `hook`/`unhook`/`osc_start`/`osc_end` actions have no counterpart (no handler is
+       attached to DCS/OSC strings); `put`/`osc_put` are kept as kinds but have no effect.
+  DEL (0x7F): the diagram prints it in Ground (event 20–7F), passes it to `osc_put` in OscString and
+  ignores it everywhere else (in DcsPassthrough it is *not* `put`).  The pinned code does exactly
+  that, so no deviation was needed for DEL.
+  The only single-register simplification: `collect` keeps only the *last* intermediate / private
+  marker (the diagram collects all of them); the dispatch tables below are therefore keyed by one
+  optional character.
 -/
 import Avt.Spec.Base
 
 namespace Avt.Spec.C03
 open Avt Avt.Spec
 
-def checkStep (_ev : StepEv) : List Verdict := []
+/-! ### 1. Williams' state diagram -/
 
-def checkNew (_cols _rows : Nat) (_lim : Option Nat) (_st : Vt) : List Verdict := []
+/-- the kind of action a transition performs -/
+inductive Kind where
+  | ignore | print | execute | dispatchEsc | dispatchCsi | collect | param | clear | put | oscPut
+  deriving DecidableEq, Repr, Inhabited
 
-def checkParserStep (_prev : Parser) (_c : Nat) (_next : Parser) (_fn : String) : List Verdict := []
+/-- one line of the diagram: `ranges / action → next` (`next = none`: an event inside the state) -/
+structure Row where
+  ranges : List (Nat × Nat)
+  act : Kind
+  next : Option PState
+  deriving Repr, Inhabited
+
+def Row.has (r : Row) (c : Nat) : Bool := r.ranges.any fun iv => decide (iv.1 ≤ c) && decide (c ≤ iv.2)
+
+/-- the C0 controls that are executed (or ignored) inside a sequence: all except CAN, SUB, ESC -/
+def c0 : List (Nat × Nat) := [(0x00, 0x17), (0x19, 0x19), (0x1C, 0x1F)]
+
+/-- transitions that apply in every state -/
+def anywhere : List Row := [
+  ⟨[(0x18, 0x18), (0x1A, 0x1A), (0x80, 0x8F), (0x91, 0x97), (0x99, 0x99), (0x9A, 0x9A)], .execute, some .Ground⟩,
+  ⟨[(0x9C, 0x9C)], .ignore, some .Ground⟩,
+  ⟨[(0x1B, 0x1B)], .ignore, some .Escape⟩,
+  ⟨[(0x98, 0x98), (0x9E, 0x9F)], .ignore, some .SosPmApcString⟩,
+  ⟨[(0x90, 0x90)], .ignore, some .DcsEntry⟩,
+  ⟨[(0x9D, 0x9D)], .ignore, some .OscString⟩,
+  ⟨[(0x9B, 0x9B)], .ignore, some .CsiEntry⟩ ]
+
+/-- the events and transitions of each state -/
+def rows : PState → List Row
+  | .Ground => [
+      ⟨c0, .execute, none⟩,
+      ⟨[(0x20, 0x7F)], .print, none⟩ ]
+  | .Escape => [
+      ⟨c0, .execute, none⟩,
+      ⟨[(0x7F, 0x7F)], .ignore, none⟩,
+      ⟨[(0x20, 0x2F)], .collect, some .EscapeIntermediate⟩,
+      ⟨[(0x30, 0x4F), (0x51, 0x57), (0x59, 0x59), (0x5A, 0x5A), (0x5C, 0x5C), (0x60, 0x7E)], .dispatchEsc, some .Ground⟩,
+      ⟨[(0x5B, 0x5B)], .ignore, some .CsiEntry⟩,
+      ⟨[(0x5D, 0x5D)], .ignore, some .OscString⟩,
+      ⟨[(0x50, 0x50)], .ignore, some .DcsEntry⟩,
+      ⟨[(0x58, 0x58), (0x5E, 0x5E), (0x5F, 0x5F)], .ignore, some .SosPmApcString⟩ ]
+  | .EscapeIntermediate => [
+      ⟨c0, .execute, none⟩,
+      ⟨[(0x20, 0x2F)], .collect, none⟩,
+      ⟨[(0x7F, 0x7F)], .ignore, none⟩,
+      ⟨[(0x30, 0x7E)], .dispatchEsc, some .Ground⟩ ]
+  | .CsiEntry => [
+      ⟨c0, .execute, none⟩,
+      ⟨[(0x7F, 0x7F)], .ignore, none⟩,
+      ⟨[(0x20, 0x2F)], .collect, some .CsiIntermediate⟩,
+      ⟨[(0x3A, 0x3A)], .ignore, some .CsiIgnore⟩,
+      ⟨[(0x30, 0x39), (0x3B, 0x3B)], .param, some .CsiParam⟩,
+      ⟨[(0x3C, 0x3F)], .collect, some .CsiParam⟩,
+      ⟨[(0x40, 0x7E)], .dispatchCsi, some .Ground⟩ ]
+  | .CsiParam => [
+      ⟨c0, .execute, none⟩,
+      ⟨[(0x30, 0x39), (0x3A, 0x3A) /- D1 -/, (0x3B, 0x3B)], .param, none⟩,
+      ⟨[(0x7F, 0x7F)], .ignore, none⟩,
+      ⟨[(0x3C, 0x3F)], .ignore, some .CsiIgnore⟩,
+      ⟨[(0x20, 0x2F)], .collect, some .CsiIntermediate⟩,
+      ⟨[(0x40, 0x7E)], .dispatchCsi, some .Ground⟩ ]
+  | .CsiIntermediate => [
+      ⟨c0, .execute, none⟩,
+      ⟨[(0x20, 0x2F)], .collect, none⟩,
+      ⟨[(0x7F, 0x7F)], .ignore, none⟩,
+      ⟨[(0x30, 0x3F)], .ignore, some .CsiIgnore⟩,
+      ⟨[(0x40, 0x7E)], .dispatchCsi, some .Ground⟩ ]
+  | .CsiIgnore => [
+      ⟨c0, .execute, none⟩,
+      ⟨[(0x20, 0x3F), (0x7F, 0x7F)], .ignore, none⟩,
+      ⟨[(0x40, 0x7E)], .ignore, some .Ground⟩ ]
+  | .DcsEntry => [
+      ⟨c0, .ignore, none⟩,
+      ⟨[(0x7F, 0x7F)], .ignore, none⟩,
+      ⟨[(0x20, 0x2F)], .collect, some .DcsIntermediate⟩,
+      ⟨[(0x3A, 0x3A)], .ignore, some .DcsIgnore⟩,
+      ⟨[(0x30, 0x39), (0x3B, 0x3B)], .param, some .DcsParam⟩,
+      ⟨[(0x3C, 0x3F)], .collect, some .DcsParam⟩,
+      ⟨[(0x40, 0x7E)], .ignore, some .DcsPassthrough⟩ ]
+  | .DcsParam => [
+      ⟨c0, .ignore, none⟩,
+      ⟨[(0x30, 0x39), (0x3B, 0x3B)], .param, none⟩,
+      ⟨[(0x7F, 0x7F)], .ignore, none⟩,
+      ⟨[(0x3A, 0x3A), (0x3C, 0x3F)], .ignore, some .DcsIgnore⟩,
+      ⟨[(0x20, 0x2F)], .collect, some .DcsIntermediate⟩,
+      ⟨[(0x40, 0x7E)], .ignore, some .DcsPassthrough⟩ ]
+  | .DcsIntermediate => [
+      ⟨c0, .ignore, none⟩,
+      ⟨[(0x20, 0x2F)], .collect, none⟩,
+      ⟨[(0x7F, 0x7F)], .ignore, none⟩,
+      ⟨[(0x30, 0x3F)], .ignore, some .DcsIgnore⟩,
+      ⟨[(0x40, 0x7E)], .ignore, some .DcsPassthrough⟩ ]
+  | .DcsPassthrough => [
+      ⟨c0 ++ [(0x20, 0x7E)], .put, none⟩,
+      ⟨[(0x7F, 0x7F)], .ignore, none⟩ ]
+  | .DcsIgnore => [
+      ⟨c0 ++ [(0x20, 0x7F)], .ignore, none⟩ ]
+  | .OscString => [
+      ⟨[(0x07, 0x07)], .ignore, some .Ground⟩,     -- D2 (listed before the C0 row it overrides)
+      ⟨c0, .ignore, none⟩,
+      ⟨[(0x20, 0x7F)], .oscPut, none⟩ ]
+  | .SosPmApcString => [
+      ⟨c0 ++ [(0x20, 0x7F)], .ignore, none⟩ ]
+
+/-- states whose entry action is `clear` -/
+def entryClears : PState → Bool
+  | .Escape | .CsiEntry | .DcsEntry => true
+  | _ => false
+
+/-- D4: code points from U+00A0 up are classified like `A` -/
+def classChar (c : Nat) : Nat := if c ≥ 0xA0 then 0x41 else c
+
+/-- **The reference table**: action kind and next state.  A transition without an action of its own
+    into a state with entry action `clear` has kind `clear`. -/
+def williams (st : PState) (c : Nat) : Kind × PState :=
+  match (anywhere ++ rows st).find? (fun r => r.has (classChar c)) with
+  | none => (.ignore, st)
+  | some r =>
+    match r.next with
+    | none => (r.act, st)
+    | some s => (if r.act == .ignore && entryClears s then .clear else r.act, s)
+
+/-! ### 2. The implemented control functions -/
+
+/-- closed-interval test -/
+def inR (lo hi c : Nat) : Bool := decide (lo ≤ c) && decide (c ≤ hi)
+
+/-- C0 and C1 controls with a function: BS HT LF VT FF CR SO SI, IND NEL HTS RI -/
+def refExecTable : List (Nat × Function) := [
+  (0x08, .bs), (0x09, .ht), (0x0A, .lf), (0x0B, .lf), (0x0C, .lf), (0x0D, .cr), (0x0E, .so), (0x0F, .si),
+  (0x84, .lf), (0x85, .nel), (0x88, .hts), (0x8D, .ri) ]
+
+def refExecute (c : Nat) : Option Function := refExecTable.lookup c
+
+/-- what an ESC sequence selects: the C1 control `final + 0x40` (Fe), a function, or nothing -/
+inductive EscSel where
+  | fe | fn (f : Function) | none
+  deriving DecidableEq, Repr, Inhabited
+
+/-- ESC sequences: `interm` is the last intermediate (if any), `c` the final character -/
+def refEscSel (interm : Option Nat) (c : Nat) : EscSel :=
+  match interm with
+  | none =>
+    if inR 0x40 0x5F c then .fe                      -- ESC @ … ESC _  =  C1
+    else if inR 0x37 0x37 c then .fn .decsc          -- ESC 7
+    else if inR 0x38 0x38 c then .fn .decrc          -- ESC 8
+    else if inR 0x63 0x63 c then .fn .ris            -- ESC c
+    else .none
+  | some 0x23 => if inR 0x38 0x38 c then .fn .decaln else .none                            -- ESC # 8
+  | some 0x28 => .fn (.gzd4 (if inR 0x30 0x30 c then .drawing else .ascii))                -- ESC ( 0, ESC ( x
+  | some 0x29 => .fn (.g1d4 (if inR 0x30 0x30 c then .drawing else .ascii))                -- ESC ) 0, ESC ) x
+  | some _ => .none
+
+/-- `ESC @ … ESC _` (Fe) act as the C1 control `c + 0x40` -/
+def refDispatchEsc (interm : Option Nat) (c : Nat) : Option Function :=
+  match refEscSel interm c with
+  | .fe => refExecute (c + 0x40)
+  | .fn f => some f
+  | .none => none
+
+/-- first sub-part of the `i`-th written parameter; a parameter that was not written is 0 -/
+def arg (ps : List (List Nat)) (i : Nat) : Nat :=
+  match ps[i]? with
+  | some (v :: _) => v
+  | _ => 0
+
+def refAnsiModes : List (Nat × AnsiMode) := [(4, .insert), (20, .newLine)]
+
+def refDecModes : List (Nat × DecMode) := [
+  (1, .cursorKeys), (6, .origin), (7, .autoWrap), (25, .textCursorEnable), (47, .altScreenBuffer),
+  (1047, .altScreenBuffer), (1048, .saveCursor), (1049, .saveCursorAltScreenBuffer) ]
+
+def refAnsiMode (n : Nat) : Option AnsiMode := refAnsiModes.lookup n
+def refDecMode (n : Nat) : Option DecMode := refDecModes.lookup n
+
+def refEd : List (Nat × Function) := [(0, .ed .below), (1, .ed .above), (2, .ed .all), (3, .ed .savedLines)]
+def refEl : List (Nat × Function) := [(0, .el .toRight), (1, .el .toLeft), (2, .el .all)]
+def refCtc : List (Nat × Function) := [(0, .ctc .set), (2, .ctc .clearCurrentColumn), (5, .ctc .clearAll)]
+def refTbc : List (Nat × Function) := [(0, .tbc .currentColumn), (3, .tbc .all)]
+
+/-- a written parameter as a `Param` value (for the SGR decoder, which reads sub-parts) -/
+def mkParam (parts : List Nat) : Param :=
+  { curPart := parts.length - 1, parts := parts ++ List.replicate (6 - parts.length) 0 }
+
+/-- CSI sequences: `interm` is the last private marker / intermediate collected (if any), `final`
+    the final character, `ps` the parameters as written.  Numeric arguments are passed on as written
+    (0 and "missing" are both 0 here; the default is applied by the terminal). -/
+def refDispatchCsi (interm : Option Nat) (final : Nat) (ps : List (List Nat)) : Option Function :=
+  let a := arg ps
+  match interm, final with
+  | none, 0x40 => some (.ich (a 0))                  -- @  ICH
+  | none, 0x41 => some (.cuu (a 0))                  -- A  CUU
+  | none, 0x42 => some (.cud (a 0))                  -- B  CUD
+  | none, 0x43 => some (.cuf (a 0))                  -- C  CUF
+  | none, 0x44 => some (.cub (a 0))                  -- D  CUB
+  | none, 0x45 => some (.cnl (a 0))                  -- E  CNL
+  | none, 0x46 => some (.cpl (a 0))                  -- F  CPL
+  | none, 0x47 => some (.cha (a 0))                  -- G  CHA
+  | none, 0x48 => some (.cup (a 0) (a 1))            -- H  CUP
+  | none, 0x49 => some (.cht (a 0))                  -- I  CHT
+  | none, 0x4A => refEd.lookup (a 0)                 -- J  ED
+  | none, 0x4B => refEl.lookup (a 0)                 -- K  EL
+  | none, 0x4C => some (.il (a 0))                   -- L  IL
+  | none, 0x4D => some (.dl (a 0))                   -- M  DL
+  | none, 0x50 => some (.dch (a 0))                  -- P  DCH
+  | none, 0x53 => some (.su (a 0))                   -- S  SU
+  | none, 0x54 => some (.sd (a 0))                   -- T  SD
+  | none, 0x57 => refCtc.lookup (a 0)                -- W  CTC
+  | none, 0x58 => some (.ech (a 0))                  -- X  ECH
+  | none, 0x5A => some (.cbt (a 0))                  -- Z  CBT
+  | none, 0x60 => some (.cha (a 0))                  -- `  HPA = CHA
+  | none, 0x61 => some (.cuf (a 0))                  -- a  HPR = CUF
+  | none, 0x62 => some (.rep (a 0))                  -- b  REP
+  | none, 0x64 => some (.vpa (a 0))                  -- d  VPA
+  | none, 0x65 => some (.vpr (a 0))                  -- e  VPR
+  | none, 0x66 => some (.cup (a 0) (a 1))            -- f  HVP = CUP
+  | none, 0x67 => refTbc.lookup (a 0)                -- g  TBC
+  | none, 0x68 => some (.sm (ps.filterMap fun q => refAnsiMode (q.headD 0)))      -- h  SM
+  | none, 0x6C => some (.rm (ps.filterMap fun q => refAnsiMode (q.headD 0)))      -- l  RM
+  | none, 0x6D => (Parser.sgrOps (ps.map mkParam)).map .sgr                       -- m  SGR
+  | none, 0x72 => some (.decstbm (a 0) (a 1))        -- r  DECSTBM
+  | none, 0x73 => some .scosc                        -- s  SCOSC
+  | none, 0x74 => if a 0 = 8 then some (.xtwinops (a 2) (a 1)) else none          -- t  XTWINOPS 8;rows;cols
+  | none, 0x75 => some .scorc                        -- u  SCORC
+  | some 0x21, 0x70 => some .decstr                  -- ! p  DECSTR
+  | some 0x3F, 0x68 => some (.decset (ps.filterMap fun q => refDecMode (q.headD 0)))   -- ? h  DECSET
+  | some 0x3F, 0x6C => some (.decrst (ps.filterMap fun q => refDecMode (q.headD 0)))   -- ? l  DECRST
+  | _, _ => none
+
+/-! ### 3. The reference parser over abstract registers -/
+
+/-- apply `f` to the last element -/
+def modLast {α : Type} : List α → (α → α) → List α
+  | [], _ => []
+  | [x], f => [f x]
+  | x :: y :: r, f => x :: modLast (y :: r) f
+
+/-- the effect of one parameter character on the written parameters: a digit extends the last
+    sub-part (values are kept mod 65536), `;` opens a new parameter (at most 32; further `;` are
+    dropped, so later digits run into the 32nd), `:` opens a new sub-part (at most 6) -/
+def stepW (ps : List (List Nat)) (c : Nat) : List (List Nat) :=
+  if c = 0x3B then (if ps.length < 32 then ps ++ [[0]] else ps)
+  else if c = 0x3A then modLast ps fun q => if q.length < 6 then q ++ [0] else q
+  else modLast ps fun q => modLast q fun v => (10 * v + (c - 0x30)) % 65536
+
+/-- the parameters written by a parameter string (digits, `;`, `:`), read from the text -/
+def parseParams (body : List Nat) : List (List Nat) := body.foldl stepW [[0]]
+
+structure AState where
+  state : PState := .Ground
+  interm : Option Nat := none
+  ps : List (List Nat) := [[0]]
+  deriving DecidableEq, Repr, Inhabited
+
+/-- one step of the reference parser: new state and the function emitted (if any) -/
+def refStep (a : AState) (c : Nat) : AState × Option Function :=
+  let w := williams a.state c
+  match w.1 with
+  | .ignore | .put | .oscPut => ({ a with state := w.2 }, none)
+  | .print => ({ a with state := w.2 }, some (.print c))
+  | .execute => ({ a with state := w.2 }, refExecute c)
+  | .collect => ({ a with state := w.2, interm := some c }, none)
+  | .param => ({ a with state := w.2, ps := stepW a.ps c }, none)
+  | .clear => ({ state := w.2, interm := none, ps := [[0]] }, none)
+  | .dispatchCsi => ({ a with state := w.2 }, refDispatchCsi a.interm c a.ps)
+  | .dispatchEsc => ({ a with state := w.2 }, refDispatchEsc a.interm c)
+
+def refRun : AState → List Nat → AState × List Function
+  | a, [] => (a, [])
+  | a, c :: cs =>
+    let r := refStep a c
+    let r2 := refRun r.1 cs
+    (r2.1, r.2.toList ++ r2.2)
+
+/-- the parameters a register file encodes: up to `cur_param`, each up to its `cur_part` -/
+def written (p : Parser) : List (List Nat) :=
+  (p.params.take (p.curParam + 1)).map fun q => q.parts.take (q.curPart + 1)
+
+def abs (p : Parser) : AState := { state := p.state, interm := p.intermediate, ps := written p }
+
+/-- `Parser::feed` over a string: final parser and the functions emitted (`none`: a panic) -/
+def run : Parser → List Nat → Option (Parser × List Function)
+  | p, [] => some (p, [])
+  | p, c :: cs =>
+    match p.feed c with
+    | none => none
+    | some (p', f) =>
+      match run p' cs with
+      | none => none
+      | some (q, fs) => some (q, f.toList ++ fs)
+
+/-- states in which the registers are dead: nothing reads them before the next `clear` -/
+def dead : PState → Bool
+  | .Ground | .CsiIgnore | .DcsPassthrough | .DcsIgnore | .OscString | .SosPmApcString => true
+  | _ => false
+
+/-- normal form that erases dead registers -/
+def AState.norm (a : AState) : AState := if dead a.state then { state := a.state } else a
+
+/-! ### 4. Classification of the generated arm list (the subject of `C03_table`) -/
+
+def onlySetStates : List Act → PState → Option PState
+  | [], st => some st
+  | .setState s :: as, _ => onlySetStates as s
+  | _ :: _, _ => none
+
+/-- action kind and next state of an arm body: assignments to `self.state`, then at most one other
+    statement (a register action may be followed by further state assignments).  `none`: the body
+    has a shape the diagram has no kind for. -/
+def classify : List Act → PState → Option (Kind × PState)
+  | [], st => some (.ignore, st)
+  | .setState s :: as, _ => classify as s
+  | .retPrint :: _, st => some (.print, st)
+  | .retExecute :: _, st => some (.execute, st)
+  | .retCsiDispatch :: _, st => some (.dispatchCsi, st)
+  | .retEscDispatch :: _, st => some (.dispatchEsc, st)
+  | .clear :: as, st => (onlySetStates as st).map fun s => (.clear, s)
+  | .collect :: as, st => (onlySetStates as st).map fun s => (.collect, s)
+  | .param :: as, st => (onlySetStates as st).map fun s => (.param, s)
+  | .put :: as, st => (onlySetStates as st).map fun s => (.put, s)
+  | .oscPut :: as, st => (onlySetStates as st).map fun s => (.oscPut, s)
+
+/-- what the (generated) `match (&self.state, input2)` of `Parser::feed` does for `(st, c)` -/
+def kindAndNext (st : PState) (c : Nat) : Option (Kind × PState) :=
+  match Parser.findArm Gen.feedArms st (Parser.premap c) with
+  | none => some (.ignore, st)
+  | some arm => classify arm.acts st
+
+/-! ### 5. The oracle -/
+
+def natTok (n : Nat) : String := toString n
+
+def listTok {α : Type} (f : α → String) (xs : List α) : String :=
+  if xs.isEmpty then "-" else ",".intercalate (xs.map f)
+
+def colorTok : Color → String
+  | .indexed n => s!"i{n}"
+  | .rgb r g b => s!"r{r}.{g}.{b}"
+
+def sgrOpTok : SgrOp → String
+  | .reset => "0" | .setBold => "1" | .setFaint => "2" | .setItalic => "3" | .setUnderline => "4"
+  | .setBlink => "5" | .setInverse => "7" | .setStrikethrough => "9" | .resetIntensity => "22"
+  | .resetItalic => "23" | .resetUnderline => "24" | .resetBlink => "25" | .resetInverse => "27"
+  | .resetStrikethrough => "29" | .setFg c => "fg:" ++ colorTok c | .resetFg => "39"
+  | .setBg c => "bg:" ++ colorTok c | .resetBg => "49"
+
+def decModeTok : DecMode → String
+  | .cursorKeys => "1" | .origin => "6" | .autoWrap => "7" | .textCursorEnable => "25"
+  | .altScreenBuffer => "1047" | .saveCursor => "1048" | .saveCursorAltScreenBuffer => "1049"
+
+def ansiModeTok : AnsiMode → String
+  | .insert => "4" | .newLine => "20"
+
+/-- the harness' text form of a `Function` (`function_tok` in harness/src/main.rs) -/
+def functionTok : Function → String
+  | .bs => "bs" | .cbt n => s!"cbt {n}" | .cha n => s!"cha {n}" | .cht n => s!"cht {n}"
+  | .cnl n => s!"cnl {n}" | .cpl n => s!"cpl {n}" | .cr => "cr"
+  | .ctc op => "ctc " ++ (match op with | .set => "0" | .clearCurrentColumn => "1" | .clearAll => "2")
+  | .cub n => s!"cub {n}" | .cud n => s!"cud {n}" | .cuf n => s!"cuf {n}" | .cup r c => s!"cup {r} {c}"
+  | .cuu n => s!"cuu {n}" | .dch n => s!"dch {n}" | .decaln => "decaln" | .decrc => "decrc"
+  | .decrst ms => "decrst " ++ listTok decModeTok ms | .decsc => "decsc"
+  | .decset ms => "decset " ++ listTok decModeTok ms | .decstbm t b => s!"decstbm {t} {b}"
+  | .decstr => "decstr" | .dl n => s!"dl {n}" | .ech n => s!"ech {n}"
+  | .ed s => "ed " ++ (match s with | .below => "0" | .above => "1" | .all => "2" | .savedLines => "3")
+  | .el s => "el " ++ (match s with | .toRight => "0" | .toLeft => "1" | .all => "2")
+  | .g1d4 c => "g1d4 " ++ (match c with | .ascii => "0" | .drawing => "1")
+  | .gzd4 c => "gzd4 " ++ (match c with | .ascii => "0" | .drawing => "1")
+  | .ht => "ht" | .hts => "hts" | .ich n => s!"ich {n}" | .il n => s!"il {n}" | .lf => "lf"
+  | .nel => "nel" | .print c => s!"print {c}" | .rep n => s!"rep {n}" | .ri => "ri" | .ris => "ris"
+  | .rm ms => "rm " ++ listTok ansiModeTok ms | .scorc => "scorc" | .scosc => "scosc"
+  | .sd n => s!"sd {n}" | .sgr ops => "sgr " ++ listTok sgrOpTok ops | .si => "si"
+  | .sm ms => "sm " ++ listTok ansiModeTok ms | .so => "so" | .su n => s!"su {n}"
+  | .tbc s => "tbc " ++ (match s with | .currentColumn => "0" | .all => "1")
+  | .vpa n => s!"vpa {n}" | .vpr n => s!"vpr {n}" | .xtwinops c r => s!"xtwinops {c} {r}"
+
+def optFunTok : Option Function → String
+  | some f => functionTok f
+  | none => "-"
+
+def kindName : Kind → String
+  | .ignore => "ignore" | .print => "print" | .execute => "execute" | .dispatchEsc => "esc-dispatch"
+  | .dispatchCsi => "csi-dispatch" | .collect => "collect" | .param => "param" | .clear => "clear"
+  | .put => "put" | .oscPut => "osc-put"
+
+/-- One character fed to a bare parser of the implementation: `prev`/`next` are its register files
+    before/after, `fn` the text form of the returned function (`-` for `None`).
+    The next state must be Williams'; the function must be the reference dispatch applied to the
+    parameters *as written* (recovered from `prev`); the registers after the step must encode what
+    the reference parser holds (so the action kind — ignore / collect / param / clear — is checked
+    through its effect), and must again satisfy the register invariant. -/
+def checkParserStep (prev : Parser) (c : Nat) (next : Parser) (fn : String) : List Verdict :=
+  let a := abs prev
+  let w := williams prev.state c
+  let r := refStep a c
+  let k := kindName w.1
+  let inv := PInv prev
+  [ check s!"williams-next-state[{k}]" true (next.state == w.2),
+    check s!"reference-function[{k}]" (w.1 == .print || w.1 == .execute || w.1 == .dispatchCsi || w.1 == .dispatchEsc)
+      (fn == optFunTok r.2),
+    check s!"registers-encode-written-parameters[{k}]" inv (!inv || abs next == r.1),
+    check s!"register-invariant-preserved[{k}]" inv (!inv || PInv next) ]
+
+/-- A whole public call: the parser state after the call is the fold of the reference parser over the
+    input, its registers encode the reference's, and the functions that reached the terminal are the
+    reference's. -/
+def checkStep (ev : StepEv) : List Verdict :=
+  if ev.kind == .resize then
+    [ check "resize-leaves-parser-alone" false (ev.next.parser == ev.prev.parser) ]
+  else
+    let inv := PInv ev.prev.parser
+    let r := refRun (abs ev.prev.parser) ev.input
+    [ check "williams-state-after-call" true (ev.next.parser.state == r.1.state),
+      check "registers-after-call" inv (!inv || (abs ev.next.parser == r.1 && PInv ev.next.parser)),
+      check "functions-of-call" true (ev.funs == r.2) ]
+
+def checkNew (_cols _rows : Nat) (_lim : Option Nat) (st : Vt) : List Verdict :=
+  [ check "new-parser-is-ground-and-zero" true (st.parser == Parser.new && abs st.parser == {}) ]
 
 def checkDirective (_name : String) (_args : List String) (_inst : String → Option Inst)
     (_tcOut : Nat → List (List Nat)) : List Verdict × List (Nat × Inst) := ([], [])
